@@ -176,14 +176,24 @@ func selectAddrFromSubnetOffset(net1 *phantomNet, offset *big.Int) (*PhantomIP, 
 	}
 
 	ipBigInt := &big.Int{}
+	ipLen := 0
 	if v4net := net1.IP.To4(); v4net != nil {
 		ipBigInt.SetBytes(net1.IP.To4())
+		ipLen = net.IPv4len
 	} else if v6net := net1.IP.To16(); v6net != nil {
 		ipBigInt.SetBytes(net1.IP.To16())
+		ipLen = net.IPv6len
+	} else {
+		return nil, errors.New("invalid subnet address")
 	}
 
 	ipBigInt.Add(ipBigInt, offset)
-	ip := net.IP(ipBigInt.Bytes())
+	if ipBigInt.BitLen() > ipLen*8 {
+		return nil, errors.New("address outside of the address family")
+	}
+	// big.Int.Bytes() drops leading zero bytes (e.g. for 0.10.0.0/16 or 64:ff9b::/96), which would
+	// yield a malformed 3 or 15 byte address: always encode the full address length.
+	ip := net.IP(ipBigInt.FillBytes(make([]byte, ipLen)))
 
 	return &PhantomIP{ip: &ip, supportRandomPort: net1.supportRandomPort}, nil
 }
